@@ -23,7 +23,8 @@ BEHAVIOURS = ("first", "last", "unknown", "raise", "exit")
 #   raise-add   the member refuses the formula when it is asserted
 #   raise-on-c  answers (first model) unless the symbol c occurs in its assertions, then it raises
 #   raise-exitfail  the query raises and releasing the solver afterwards raises too (dead external process)
-EXTRA_BEHAVIOURS = ("raise-init", "raise-add", "raise-on-c", "raise-exitfail")
+#   raise-answer    the query fails with the library's own UnknownSolverAnswerError (as a text solver's does)
+EXTRA_BEHAVIOURS = ("raise-init", "raise-add", "raise-on-c", "raise-exitfail", "raise-answer")
 ANSWERING = ("first", "last", "raise-on-c")
 
 
@@ -61,6 +62,9 @@ class MemberSolver(Solver):
             if any("c" in free_symbols(f) for f in self.fs):
                 raise RuntimeError("member failed")
             b = "first"
+        if b == "raise-answer":
+            from pysmt.exceptions import UnknownSolverAnswerError
+            raise UnknownSolverAnswerError("Solver returned: garbage")
         if b in ("raise", "raise-exitfail"):
             self._failed = True
             raise RuntimeError("member failed")
@@ -109,7 +113,7 @@ def member_class(beh):
 
 SCRIPTS = ("solve", "solve+model", "solve+value", "solve-push-solve", "is_sat", "solve-twice", "is_sat-add-solve")
 # scripts with their own configurations (see configs): assumptions; a failing second query followed by get_model
-EXTRA_SCRIPTS = ("solve-assume", "solve-failsolve-model")
+EXTRA_SCRIPTS = ("solve-assume", "solve-failsolve-model", "failed-is_sat-then-solve")
 
 
 def make_body(env, names, script, exit_on_exception, unsat):
@@ -146,6 +150,18 @@ def make_body(env, names, script, exit_on_exception, unsat):
                     model = p.get_model()
                     val = {"a": model.get_py_value(a), "b": model.get_py_value(b)}
                     obs["model3_ok"] = bool(holds(m.And(base, a), val))
+                return obs
+            if script == "failed-is_sat-then-solve":
+                # a one-shot query on which every raise-on-c member fails: afterwards the portfolio holds
+                # exactly the assertions of before, and answers for them
+                try:
+                    obs = {"query": p.is_sat(m.And(m.Symbol("c"), m.Not(a), m.Not(b)))}
+                except sched.Deadlock:
+                    raise
+                except Exception:
+                    obs = {"query": "raised"}
+                obs["n_assertions"] = len(p.assertions)
+                obs["verdict"] = p.solve()
                 return obs
             if script == "solve-failsolve-model":
                 # a successful query, then one on which every raise-on-c member fails, then get_model:
@@ -215,6 +231,10 @@ def expected(script, unsat, behs=()):
         if sat:
             e["model3_ok"] = True
         return e
+    if script == "failed-is_sat-then-solve":
+        if all(b == "raise-on-c" for b in behs):
+            return {"query": "raised", "n_assertions": 1, "verdict": True}
+        return {"query": False, "n_assertions": 1, "verdict": True}
     if script == "solve-failsolve-model":
         if all(b == "raise-on-c" for b in behs):
             return {"verdict": True, "verdict2": "raised", "model": "raised"}
@@ -260,7 +280,7 @@ def run_config(args):
         names = member_names(env, behs, same_solver)
         body = make_body(env, names, script, eoe, unsat)
         some_answer = any(bh in ANSWERING for bh in behs)
-        some_error = any(bh in ("raise", "unknown", "raise-init", "raise-add", "raise-exitfail") for bh in behs)
+        some_error = any(bh in ("raise", "unknown", "raise-init", "raise-add", "raise-exitfail", "raise-answer") for bh in behs)
         want = expected(script, unsat, behs)
         cfg = {"members": list(behs), "script": script, "exit_on_exception": eoe, "unsat": unsat,
                "same_solver": bool(same_solver)}
@@ -339,8 +359,8 @@ def configs(ctx):
         for script in ("solve", "solve+model"):
             out.append((behs, script, False, False, None, ctx.seed, True))
     # members that fail before their solve starts (construction, assertion), alone and next to others
-    for behs in itertools.product(("first", "raise-init", "raise-add", "raise", "raise-exitfail"), repeat=2):
-        if any(b in ("raise-init", "raise-add", "raise-exitfail") for b in behs):
+    for behs in itertools.product(("first", "raise-init", "raise-add", "raise", "raise-exitfail", "raise-answer"), repeat=2):
+        if any(b in ("raise-init", "raise-add", "raise-exitfail", "raise-answer") for b in behs):
             for eoe in (False, True):
                 out.append((behs, "solve+model", eoe, False, None, ctx.seed))
     # assumptions
@@ -350,6 +370,10 @@ def configs(ctx):
     # a query on which every member fails, after a successful one, then get_model
     for behs in itertools.product(("first", "raise-on-c"), repeat=2):
         out.append((behs, "solve-failsolve-model", False, False, 1 if q else 2, ctx.seed))
+        for eoe in (False, True):
+            if eoe and not all(b == "raise-on-c" for b in behs):
+                continue        # with exit_on_exception the first failure may or may not end the query
+            out.append((behs, "failed-is_sat-then-solve", eoe, False, 1 if q else 2, ctx.seed))
     if q:
         # three members under a preemption bound of 2, the most race-prone script
         for behs in itertools.product(("first", "last", "raise", "exit"), repeat=3):
